@@ -26,6 +26,12 @@ pub(crate) fn check_rabin_params(
         )
         .attach_context("chunk_size", chunk_size.to_string()));
     }
+    if chunk_min_size == 0 {
+        return Err(RusticError::new(
+            ErrorKind::Unsupported,
+            "Chunk min size must be greater than 0.",
+        ));
+    }
     if chunk_min_size > chunk_size {
         return Err(RusticError::new(
             ErrorKind::Unsupported,
